@@ -1,0 +1,108 @@
+//go:build verif
+
+package ggql
+
+//@ -- ================================================================== C03 scanners: every loop consumes input (no hang)
+//@ -- Reader model. The input is finite: at most #N bytes are ever delivered (#N is a ghost constant, arbitrary but fixed);
+//@ -- #rd counts the bytes delivered so far. A Read either fails, or delivers at least one byte (a reader that keeps
+//@ -- answering (0, nil) is excluded: the io.Reader documentation discourages it and readByte would spin on it).
+//@ -- Errors may occur at any call, after any number of bytes.
+//@ interface io.Reader.Read
+//@   results n, err
+//@   ghost #rd += n
+//@   ensures 0 <= n && n <= len(p)
+//@   ensures n == 0 ==> err != nil
+//@   ensures #rd <= #N
+//@   assigns #rd, p
+
+//@ -- remaining work of a scanner: two units per undelivered byte, one for a byte waiting in the one-byte lookahead,
+//@ -- one for the end-of-input mark still to be discovered
+//@ spec scanM(p *parser) int = 2*(#N - #rd) + ite(p.onDeck != 0, 1, 0) + ite(p.eof, 0, 1)
+//@ spec scanOk(p *parser) bool = p != nil && #rd <= #N
+
+//@ func (*parser).readByte
+//@   props C03
+//@   requires scanOk(p)
+//@   ensures[ok] scanOk(p)
+//@   ensures[no-growth] scanM(p) <= old(scanM(p))
+//@   ensures[eof-discovered] p.eof && !old(p.eof) ==> scanM(p) < old(scanM(p))
+//@   ensures[progress] err == nil && b != 0 ==> scanM(p) < old(scanM(p))
+//@   ensures[progress-from-reader] err == nil && b != 0 && old(p.onDeck) == 0 ==> scanM(p) + 2 <= old(scanM(p))
+//@   ensures[zero-means-end] err == nil && b == 0 ==> scanM(p) < old(scanM(p)) || (p.eof && old(p.eof) && p.line == old(p.line) && p.col == old(p.col) && old(p.onDeck) == 0)
+//@   ensures[lookahead-empty] p.onDeck == 0
+//@   ensures[err-zero] err != nil ==> b == 0
+//@   ensures[from-lookahead] old(p.onDeck) != 0 ==> b == old(p.onDeck) && err == nil && #rd == old(#rd) && p.eof == old(p.eof) && p.line == old(p.line) && p.col == old(p.col)
+//@   assigns fresh, p.onDeck, p.eof, p.line, p.col, #rd
+//@   loop 0: invariant[ok] scanOk(p) && p.onDeck == 0 && !p.eof && #rd == old(#rd)
+//@           invariant[eof-discovered] p.eof && !old(p.eof) ==> scanM(p) < old(scanM(p))
+//@           decreases 0
+
+//@ func (*parser).putBack
+//@   props C03
+//@   requires scanOk(p)
+//@   requires[lookahead-free] p.onDeck == 0
+//@   ensures[ok] scanOk(p)
+//@   ensures[cost] scanM(p) <= old(scanM(p)) + 1
+//@   ensures[set] p.onDeck == b && p.eof == old(p.eof) && p.line == old(p.line) && p.col == old(p.col)
+//@   assigns p.onDeck
+
+//@ func (*parser).skipBOM
+//@   props C03
+//@   requires scanOk(p)
+//@   ensures[ok] scanOk(p)
+//@   ensures[no-growth] scanM(p) <= old(scanM(p))
+//@   assigns fresh, p.onDeck, p.eof, p.line, p.col, #rd
+//@   loop 0: invariant[ok] scanOk(p) && scanM(p) <= old(scanM(p))
+//@           invariant[bounds] rangeindex+1 <= 2
+//@           decreases 2 - rangeindex
+
+//@ -- skipSpace leaves the byte it returns in the lookahead (unless it is 0: end of input or a NUL byte)
+//@ func (*parser).skipSpace
+//@   props C03
+//@   requires scanOk(p)
+//@   ensures[ok] scanOk(p)
+//@   ensures[no-growth] scanM(p) <= old(scanM(p))
+//@   ensures[eof-discovered] p.eof && !old(p.eof) ==> scanM(p) < old(scanM(p))
+//@   ensures[lookahead] err == nil && b != 0 ==> p.onDeck == b
+//@   ensures[zero] b == 0 ==> p.onDeck == 0
+//@   ensures[err-zero] err != nil ==> b == 0
+//@   ensures[zero-means-end] err == nil && b == 0 ==> p.eof || scanM(p) < old(scanM(p))
+//@   ensures[progress-or-same] err == nil ==> scanM(p) < old(scanM(p)) || (p.onDeck == old(p.onDeck) && p.line == old(p.line) && p.col == old(p.col) && p.eof == old(p.eof))
+//@   assigns fresh, p.onDeck, p.eof, p.line, p.col, #rd
+//@   loop 0: invariant[ok] scanOk(p) && scanM(p) <= old(scanM(p))
+//@           invariant[eof-discovered] p.eof && !old(p.eof) ==> scanM(p) < old(scanM(p))
+//@           invariant[progress-or-first] scanM(p) < old(scanM(p)) || (p.onDeck == old(p.onDeck) && p.line == old(p.line) && p.col == old(p.col) && p.eof == old(p.eof))
+//@           decreases scanM(p)
+//@   loop 1: invariant[ok] scanOk(p) && scanM(p) <= old(scanM(p)) && p.onDeck == 0
+//@           invariant[eof-discovered] p.eof && !old(p.eof) ==> scanM(p) < old(scanM(p))
+//@           invariant[inside-outer] scanM(p) < atouter(scanM(p))
+//@           decreases scanM(p)
+
+//@ func (*parser).readToken
+//@   props C03
+//@   requires scanOk(p)
+//@   results tok, err
+//@   ensures[ok] scanOk(p)
+//@   ensures[no-growth] scanM(p) <= old(scanM(p))
+//@   ensures[eof-discovered] p.eof && !old(p.eof) ==> scanM(p) < old(scanM(p))
+//@   ensures[progress] err == nil && len(tok) > 0 ==> scanM(p) < old(scanM(p))
+//@   ensures[empty-unchanged] err == nil && len(tok) == 0 ==> scanM(p) < old(scanM(p)) || (p.onDeck == old(p.onDeck) && p.line == old(p.line) && p.col == old(p.col))
+//@   assigns fresh, p.onDeck, p.eof, p.line, p.col, #rd, BUF_len
+//@   loop 0: invariant[ok] scanOk(p) && scanM(p) <= old(scanM(p))
+//@           invariant[eof-discovered] p.eof && !old(p.eof) ==> scanM(p) < old(scanM(p))
+//@           invariant[written] buflen(addrof(buf)) >= 0 && (buflen(addrof(buf)) > 0 ==> scanM(p) < old(scanM(p)))
+//@           invariant[nothing-yet] buflen(addrof(buf)) == 0 ==> scanM(p) < old(scanM(p)) || (p.onDeck == old(p.onDeck) && p.line == old(p.line) && p.col == old(p.col))
+//@           decreases scanM(p)
+
+//@ func (*parser).readNumberToken
+//@   props C03
+//@   requires scanOk(p)
+//@   results tok, err
+//@   ensures[ok] scanOk(p)
+//@   ensures[no-growth] scanM(p) <= old(scanM(p))
+//@   ensures[progress] err == nil && (old(p.onDeck) == 45 || (48 <= old(p.onDeck) && old(p.onDeck) <= 57)) ==> scanM(p) < old(scanM(p))
+//@   assigns fresh, p.onDeck, p.eof, p.line, p.col, #rd, BUF_len
+//@   loop 0: invariant[ok] scanOk(p) && scanM(p) <= old(scanM(p))
+//@           invariant[written] buflen(addrof(buf)) >= 0 && (buflen(addrof(buf)) > 0 ==> scanM(p) < old(scanM(p)))
+//@           invariant[nothing-yet] buflen(addrof(buf)) == 0 ==> p.onDeck == old(p.onDeck) && scanM(p) == old(scanM(p))
+//@           decreases scanM(p)
